@@ -53,7 +53,10 @@ func (x *Exec) evalInstr(st *State, fr *Frame, b *ssa.BasicBlock, idx int, v ssa
 				z := make([]byte, n)
 				fr.env[in] = T{S: smtStrLit(z), So: SString, Segs: []Seg{{Kind: "const", Lit: z, S: smtStrLit(z)}}}
 			} else {
-				fr.env[in] = app(SString, "zeros", ln)
+				// mutable byte buffer of symbolic length
+				o := x.e.newObj(st, app(SString, "zeros", ln))
+				x.e.objElem[o] = et
+				fr.env[in] = &SliceV{Back: o, Off: IntLit(0), Len: ln, Elem: et}
 			}
 			break
 		}
@@ -904,9 +907,35 @@ func (x *Exec) callClosure(st *State, fr *Frame, ci *callInfo, cv *ClosureV, arg
 
 func fullName(fn *ssa.Function) string { return fn.String() }
 
+// coerceBufs: mutable byte buffers passed to library models become their current contents.
+func (x *Exec) coerceBufs(st *State, args []Val) []Val {
+	var out []Val
+	for i, a := range args {
+		if sl, ok := a.(*SliceV); ok && sl.Back >= 0 && isByte(sl.Elem) {
+			if cur, isT := st.Heap[sl.Back].(T); isT && cur.So == SString {
+				if out == nil {
+					out = append([]Val(nil), args...)
+				}
+				if sl.Off.S == "0" {
+					out[i] = cur
+				} else {
+					out[i] = app(SString, "str.substr", cur, sl.Off, sl.Len)
+				}
+			}
+		}
+	}
+	if out == nil {
+		return args
+	}
+	return out
+}
+
 func (x *Exec) callFunc(st *State, fr *Frame, ci *callInfo, fn *ssa.Function, args []Val, k func(*State, *Frame, Val)) {
 	name := fullName(fn)
 	ci.name = name
+	if _, isLib := libModels[name]; isLib || fn.Blocks == nil {
+		args = x.coerceBufs(st, args)
+	}
 	if x.root != nil && x.root.AtCalls != nil && x.quiet == 0 {
 		if cls, ok := x.root.AtCalls[shortFuncName(fn)]; ok {
 			c := x.envFor(st, x.entry, st.Frames[0], nil)
@@ -1128,7 +1157,20 @@ func (x *Exec) builtin(st *State, fr *Frame, ci *callInfo, name string, args []V
 	case "append":
 		return x.appendOp(st, args, cc.Args[0].Type())
 	case "copy":
-		x.fail("copy unsupported")
+		// copy into a mutable byte buffer of the same length as the source
+		dst, ok := args[0].(*SliceV)
+		src, ok2 := args[1].(T)
+		if ok && ok2 && isByte(dst.Elem) && dst.Off.S == "0" {
+			if cur, isT := st.Heap[dst.Back].(T); isT && cur.So == SString {
+				n := app(SInt, "min_", dst.Len, StrLen(src))
+				st.Heap[dst.Back] = app(SString, "str.++", app(SString, "str.substr", src, IntLit(0), n), app(SString, "str.substr", cur, n, Sub(dst.Len, n)))
+				if st.Written != nil {
+					st.Written[dst.Back] = true
+				}
+				return n
+			}
+		}
+		x.fail("copy unsupported for %T <- %T at %s", args[0], args[1], x.posStr(ci.pos))
 	case "delete":
 		mv := args[0].(*MapV)
 		mt := cc.Args[0].Type().Underlying().(*types.Map)
